@@ -579,9 +579,9 @@ class HTTPWARCRecorderSession(BaseWARCRecorderSession):
         self._response_temp_file.write(data)
 
     def end_response(self, response: HTTPResponse):
-        payload_offset = len(response.to_bytes())
-
         self._response_record.block_file.seek(0)
+        payload_offset = self._received_header_length(
+            self._response_record.block_file)
         self._recorder.set_length_and_maybe_checksums(
             self._response_record,
             payload_offset=payload_offset
@@ -591,6 +591,24 @@ class HTTPWARCRecorderSession(BaseWARCRecorderSession):
             self._record_revisit(payload_offset)
 
         self._recorder.write_record(self._response_record)
+
+    @classmethod
+    def _received_header_length(cls, block_file) -> int:
+        '''Return the length of the header as it was received.
+
+        The payload starts after the first empty line of the recorded
+        bytes. The length of the serialized response object must not be
+        used because it differs whenever the server's formatting does.
+        '''
+        length = 0
+
+        with wpull.util.reset_file_offset(block_file):
+            while True:
+                line = block_file.readline()
+                length += len(line)
+
+                if line in (b'\r\n', b'\n', b''):
+                    return length
 
     def _record_revisit(self, payload_offset: int):
         '''Record the revisit if possible.'''
